@@ -55,7 +55,7 @@ ASSUMPTIONS = [
 VOL = ('RAND', 'NOW', 'TODAY')
 FWAYS = ('compile', 'recompile', 'deepcopy', 'dill')
 MWAYS = ('dict', 'json', 'deepcopy', 'dill', 'xlsx', 'compile', 'compile-deepcopy',
-         'compile-dill')
+         'compile-dill', 'deepcopy+compile', 'dill+compile', 'json+compile')
 LIT_POOL = [2.0, 3.0, 5.0, 0.0, 1.5, 7.0, 'a', 'x y', '', True, False, 12.0]
 _installed = []
 
@@ -558,7 +558,7 @@ def make_workbook_case(seed, i):
         return None
     vols = []
     for n, k in enumerate(chosen):
-        tree, spec = _vol_tree(rng, (0, 1 + (i // 16) % 2, 3)[n] if n < 3 else None)
+        tree, spec = _vol_tree(rng, (0, 1 + (i // len(MWAYS)) % 2, 3)[n] if n < 3 else None)
         cell = _cell(desc, k)
         cell.pop('v')
         cell['f'] = tree
@@ -567,8 +567,6 @@ def make_workbook_case(seed, i):
               if isinstance(_cell(desc, k)['v'], float)]
     inputs = [list(k) for k in rng.sample(consts, min(len(consts), rng.randint(0, 2)))]
     way = MWAYS[i % len(MWAYS)]
-    if way == 'xlsx' and i % 16 >= 8:
-        way = 'dict'
     # a defined name for a volatile cell, used by a fresh dependent
     vb, vs, vc, vr = chosen[0]
     desc['names']['VOLNAME'] = ['cell', vb, vs, vc, vr]
@@ -599,13 +597,14 @@ def _obtain_model(case):
         m, _ = wbrun.load_xlsx(desc, os.path.join(worker.scratch_dir(), 'c13'))
     else:
         m = wbrun.load_dict(desc)
-    if way == 'json':
+    how = way.split('+')[0]        # 'deepcopy+compile': copy the model, then compile
+    if how == 'json':
         m.calculate()
         m = formulas.ExcelModel().from_dict(json.loads(json.dumps(m.to_dict())))
-    elif way == 'deepcopy':
+    elif how == 'deepcopy':
         m.calculate()
         m = copy.deepcopy(m)
-    elif way == 'dill':
+    elif how == 'dill':
         m.calculate()
         m = dill.loads(dill.dumps(m))
     return m
@@ -625,7 +624,7 @@ def check_workbook_case(case, ctx):
     try:
         m = _obtain_model(case)
         func = None
-        if way.startswith('compile'):
+        if 'compile' in way:
             down = sorted(wbrun.downstream(desc, vol_keys) - set(vol_keys))
             down = [k for k in down if k in {tuple(x) for x in wbrun.formula_cells(desc)}]
             out_keys = vol_keys + down[:6]
@@ -771,7 +770,7 @@ def plan(tier, seed):
     for lo in range(0, nr, per):
         specs.append({'kind': 'rb', 'lo': lo, 'hi': lo + per})
     specs.append({'kind': 'edge', 'lo': 0, 'hi': 24})
-    nw, per = (96, 8) if q else (1280, 40)
+    nw, per = (110, 10) if q else (1320, 44)
     for lo in range(0, nw, per):
         specs.append({'kind': 'workbooks', 'lo': lo, 'hi': lo + per})
     return specs
